@@ -20,6 +20,8 @@ import CifModel.Props.C04
       for a code not in use;
     * `C03_consistent_after_every_call`: the target is consistent and rectangular after EVERY recorded call (every prefix of the
       trace), so `C03_set_value_calls_documented`: every set_value of every parse is the documented function, no premise left;
+      `C03_add_packet_calls_documented`, `C03_create_calls_documented`: every add_packet / block / frame creation of every parse is
+      a SUCCESSFUL call of the documented function in the state in which it is made (`Lemmas/ParserTraceInv.trace_calls_docOk`);
     * `C03_store_step_mkBlock`: for block creation the composition with the store model's API function (through C04_refines_create_block).
   NOT proved: `C03_parser_store_refines_full` — running the translated history (`storeOps`) through `Store.step` from a new CIF ends
   with every call CIF_OK in a store whose abstraction `Store.abs` is the parser model's CIF.  It is EXECUTED by the model driver on
@@ -82,6 +84,56 @@ theorem C03_set_value_calls_documented (o : Opts) (pol : Policy) (pre : Cif) (un
   rw [hstep, List.foldl_append]
   simp only [List.foldl_cons, List.foldl_nil, SOp.apply]
   exact updIn_congr_ok o _ _ (fun c hc hrc => setValueC_spec o n v c hc hrc) path _ hpre.1.2 hpre.2
+
+/-- **C03_create_calls_documented** — every block / save-frame creation a parse makes is, in the state in which it is made, a
+    SUCCESSFUL call of the documented function (validation waived for the lenient creations): the code is not in use there. -/
+theorem C03_create_calls_documented (o : Opts) (pol : Policy) (pre : Cif) (units : Str) (h : OkCif o pre) (hr : RectCif pre) (k : Nat) :
+    let before := ((storeTrace o pol pre units).take k).foldl (fun c op => op.apply o c) pre
+    (∀ code lenient, (storeTrace o pol pre units)[k]? = some (SOp.mkBlock code lenient) →
+      specCreateBlock o.norm before (o.norm code) code true = .ok ((SOp.mkBlock code lenient).apply o before)) ∧
+    (∀ parent code lenient, (storeTrace o pol pre units)[k]? = some (SOp.mkFrame parent code lenient) →
+      ∀ cc, getIn o.norm parent before = some cc →
+        cc.specCreateFrame o.norm (o.norm code) code true
+          = .ok (Container.mk cc.code (cc.frames ++ [Container.mk code [] []]) cc.loops)) := by
+  intro before
+  refine ⟨?_, ?_⟩
+  · intro code lenient hk
+    exact mkBlock_spec o before code lenient (trace_calls_docOk o pol pre units ⟨h, hr⟩ k _ hk)
+  · intro parent code lenient hk cc hg
+    have hd := trace_calls_docOk o pol pre units ⟨h, hr⟩ k _ hk
+    simp only [SOp.docOk] at hd
+    apply mkFrame_spec o cc code
+    have e : getIn o.norm parent (((storeTrace o pol pre units).take k).foldl (fun c op => op.apply o c) pre) = some cc := hg
+    rw [e] at hd
+    simpa using hd
+
+/-- **C03_add_packet_calls_documented** — every cif_loop_add_packet a parse makes is, in the state in which it is made, a SUCCESSFUL
+    call of the documented function on the LAST loop of the container: the packet `names ↦ values` (keys normalised) is accepted
+    (not empty, no foreign item, not a second packet of the scalar loop) and adds exactly the row of values — which is what the
+    parser model's step does. -/
+theorem C03_add_packet_calls_documented (o : Opts) (pol : Policy) (pre : Cif) (units : Str) (h : OkCif o pre) (hr : RectCif pre)
+    (k : Nat) (path : Path) (vals : List V) (hk : (storeTrace o pol pre units)[k]? = some (SOp.addPkt path vals)) :
+    let before := ((storeTrace o pol pre units).take k).foldl (fun c op => op.apply o c) pre
+    ∀ cc, getIn o.norm path before = some cc →
+      ∃ ls0 l, cc.loops = ls0 ++ [l] ∧
+        Loop.specAddPacket o.norm l ((l.names.map o.norm).zip vals) = .ok { l with packets := l.packets ++ [vals] } ∧
+        addPacketLast cc.loops vals = ls0 ++ [{ l with packets := l.packets ++ [vals] }] := by
+  intro before cc hg
+  have hpre := trace_prefix_okR o pol pre units ⟨h, hr⟩ k
+  obtain ⟨hne, hd⟩ := trace_calls_docOk o pol pre units ⟨h, hr⟩ k _ hk
+  obtain ⟨l, hl, hs, hlen⟩ := hd cc hg
+  obtain ⟨ls0, e⟩ := exists_snoc_of_getLast? cc.loops l hl
+  have hokc : OkC o cc := getIn_okC o path _ cc hpre.1.2 hg
+  obtain ⟨code, fs, ls⟩ := cc
+  rw [OkC_mk] at hokc
+  simp only [Container.loops] at e hl ⊢
+  have hnd : (l.names.map o.norm).Nodup := nodup_names_of_mem o ls l hokc.1.1 (by rw [e]; simp)
+  refine ⟨ls0, l, e, ?_, by rw [e, addPacketLast_append]⟩
+  apply addPkt_spec o.norm l vals hnd hlen.symm hne
+  rintro ⟨hsc, _⟩
+  have : Parser.isScalarLoop l = true := hsc
+  rw [hs] at this
+  cases this
 
 /-- **FULL statement (not proved; executed on every generated input, see the head of the file)**: the calls of a parse into a
     new CIF, run through the store model, all succeed and build exactly the CIF the parser model returns. -/
